@@ -7,6 +7,7 @@ import (
 	"strconv"
 	"strings"
 	"sync"
+	"syscall"
 	"testing"
 	"time"
 
@@ -508,4 +509,66 @@ func TestC12Soak(t *testing.T) {
 	if w.Failed() {
 		t.Logf("other findings during the soak: %v", w.Findings)
 	}
+}
+
+// ---- C02: unmount -------------------------------------------------------------
+
+// TestC02Umount: a watched tmpfs is unmounted; IN_UNMOUNT / IN_IGNORED must not
+// surface, the watches end, nothing is reported for the directory underneath,
+// and the paths can be added again. Needs CAP_SYS_ADMIN; skipped (and counted
+// as skipped) where mount(2) is not permitted.
+func TestC02Umount(t *testing.T) {
+	st := engine.StatsFor("C02")
+	probe, err := os.MkdirTemp("", "mnt")
+	if err == nil {
+		err = syscall.Mount("tmpfs", probe, "tmpfs", 0, "size=1m")
+		if err == nil {
+			syscall.Unmount(probe, 0)
+		}
+		os.Remove(probe)
+	}
+	if err != nil {
+		st.Extra["umount_part"] = "skipped: mount(2) not permitted here: " + err.Error()
+		t.Skip("mount not permitted")
+	}
+	rapid.Check(t, func(rt *rapid.T) {
+		c := &engine.Case{Prop: "C02", Buf: rapid.SampledFrom([]int{-1, 0, 8}).Draw(rt, "buf")}
+		c.Setup = []engine.Step{{K: engine.KMkdir, P: "d0"}, {K: engine.KMkdir, P: "m"}, {K: engine.KCreate, P: "m/under"}}
+		c.Steps = []engine.Step{{K: engine.KAdd, P: "d0"}, {K: engine.KMount, P: "m"}, {K: engine.KCreate, P: "m/f"}, {K: engine.KMkdir, P: "m/sub"}}
+		watchFile := rapid.Bool().Draw(rt, "watchfile")
+		watchSub := rapid.Bool().Draw(rt, "watchsub")
+		c.Steps = append(c.Steps, engine.Step{K: engine.KAdd, P: engine.P(rapid.SampledFrom([]string{"m", "./m/", engine.AbsRoot + "/m"}).Draw(rt, "marg"))})
+		if watchFile {
+			c.Steps = append(c.Steps, engine.Step{K: engine.KAdd, P: "m/f"})
+		}
+		if watchSub {
+			c.Steps = append(c.Steps, engine.Step{K: engine.KAdd, P: "m/sub"})
+		}
+		if rapid.Bool().Draw(rt, "plug") {
+			c.Steps = append(c.Steps, engine.Step{K: engine.KPlug})
+		}
+		n := rapid.IntRange(0, 5).Draw(rt, "before")
+		for i := 0; i < n; i++ {
+			p := engine.P(rapid.SampledFrom([]string{"m/f", "m/g", "m/sub/x", "d0/y"}).Draw(rt, "p"))
+			switch rapid.IntRange(0, 2).Draw(rt, "k") {
+			case 0:
+				c.Steps = append(c.Steps, engine.Step{K: engine.KCreate, P: p})
+			case 1:
+				c.Steps = append(c.Steps, engine.Step{K: engine.KWrite, P: p, N: 1})
+			default:
+				c.Steps = append(c.Steps, engine.Step{K: engine.KChmod, P: p, N: 0o600})
+			}
+		}
+		c.Steps = append(c.Steps, engine.Step{K: engine.KUmount, P: "m"}, engine.Step{K: engine.KSync}, engine.Step{K: engine.KList},
+			// the directory underneath is not watched: nothing may be reported for it
+			engine.Step{K: engine.KWrite, P: "m/under", N: 1}, engine.Step{K: engine.KCreate, P: "m/new"}, engine.Step{K: engine.KCreate, P: "d0/z"}, engine.Step{K: engine.KSync},
+			engine.Step{K: engine.KAdd, P: "m"}, engine.Step{K: engine.KCreate, P: "m/again"}, engine.Step{K: engine.KSync}, engine.Step{K: engine.KList}, engine.Step{K: engine.KFdchk})
+		w := engine.Exec(c)
+		engine.RecordCase("C02", c, w, true)
+		st.AddFeat("umount-cases", 1)
+		owned := map[string]bool{engine.FExtra: true, engine.FOpZero: true, engine.FList: true, engine.FErrors: true, engine.FMarks: true, engine.FTables: true, engine.FMissing: true, engine.FWedge: true}
+		if rep := engine.Report(c, w, owned); rep != nil {
+			rt.Fatalf("property C02 violated (replay %s)\ncase: %s\n%s", engine.SaveReplay("C02", c), c, strings.Join(rep, "\n"))
+		}
+	})
 }
